@@ -122,6 +122,29 @@ def r91(ctx, repo):
                 n_loops += 1
                 live = live_views(lp.iter)
                 cop = copied(lp.iter)
+                # a local that is bound once to another container (plain
+                # alias, no copy) is a live view of that container
+                for nm in list(live):
+                    defs = [n for n in walk(f) if isinstance(n, ast.Assign)
+                            and any(isinstance(t, ast.Name) and t.id == nm
+                                    for t in n.targets)]
+                    if len(defs) == 1:
+                        live |= live_views(defs[0].value)
+                        cop |= copied(defs[0].value)
+                seen_other = set()
+                for d, m in mutations(lp.body):
+                    if d in live | cop or d in seen_other:
+                        continue
+                    # a container changed inside a loop over something
+                    # that is not a view of it (e.g. over a list built by
+                    # a comprehension)
+                    seen_other.add(d)
+                    ctx.ob("R9.1", True,
+                           f"`{d}` is changed inside a loop over "
+                           f"`{short(lp.iter, 40)}`, which is not a view "
+                           f"of it", node=lp,
+                           label=f"`{d}` changed in a loop over "
+                                 f"{short(lp.iter, 30)}", nontrivial=False)
                 if not (live | cop):
                     continue
                 muts = [(d, n) for d, n in mutations(lp.body)
